@@ -116,31 +116,32 @@ func (r *Run) introspectionQueryText() (string, token.Pos, bool) {
 		return "", token.NoPos, false
 	}
 	var sent []ast.Expr
-	for _, f := range p.Syntax {
-		for _, d := range f.Decls {
-			fd, ok := d.(*ast.FuncDecl)
-			if !ok || fd.Body == nil || fd.Name.Name != "introspectRemoteSchema" {
-				continue
+	// (the function is found the way every anchor is: by its frozen signature when renamed)
+	var bodies []ast.Node
+	if fn := r.P.Fn("introspection.introspectRemoteSchema"); fn != nil {
+		if nd := syntaxOf(fn); nd != nil {
+			bodies = append(bodies, nd)
+		}
+	}
+	for _, body := range bodies {
+		ast.Inspect(body, func(nd ast.Node) bool {
+			cl, ok := nd.(*ast.CompositeLit)
+			if !ok {
+				return true
 			}
-			ast.Inspect(fd.Body, func(nd ast.Node) bool {
-				cl, ok := nd.(*ast.CompositeLit)
-				if !ok {
-					return true
-				}
-				tv, ok := p.TypesInfo.Types[cl]
-				if !ok || tv.Type == nil || !strings.HasSuffix(namedOf(tv.Type), "requests.Request") {
-					return true
-				}
-				for _, e := range cl.Elts {
-					if kv, ok := e.(*ast.KeyValueExpr); ok {
-						if id, ok := kv.Key.(*ast.Ident); ok && id.Name == "Query" {
-							sent = append(sent, kv.Value)
-						}
+			tv, ok := p.TypesInfo.Types[cl]
+			if !ok || tv.Type == nil || !strings.HasSuffix(namedOf(tv.Type), "requests.Request") {
+				return true
+			}
+			for _, e := range cl.Elts {
+				if kv, ok := e.(*ast.KeyValueExpr); ok {
+					if id, ok := kv.Key.(*ast.Ident); ok && id.Name == "Query" {
+						sent = append(sent, kv.Value)
 					}
 				}
-				return true
-			})
-		}
+			}
+			return true
+		})
 	}
 	if len(sent) != 1 {
 		return "", token.NoPos, false
